@@ -134,6 +134,30 @@ extern "C" void harness_main() {
   }
   checkLaws(text, ctx, true);
   if (info.kind == ref::REF_INVALID) sym_reach("invalid");
+#elif PART == 4
+  // every pair of documented grammeme tags (35 x 35, in either order, also twice the same): the canonical spelling written back is
+  // "@{entity|tags in the documented order, each once}" - computed here from the documented table, not from the library's ToString
+  static const char* const TAGS[] = {"NOUN", "NPRO", "INFN", "VERB", "ADJF", "ADJS", "PRTF", "PRTS", "ADVB", "GRND", "COMP", "PRED", "NUMR", "CONJ", "INTJ", "PRCL", "PREP", "PNCT",
+    "pres", "past", "futr", "1per", "2per", "3per", "sing", "plur", "masc", "femn", "neut", "nomn", "gent", "datv", "ablt", "accs", "loct"};
+  const int ti = pickN(35, "tag1"), tj = pickN(36, "tag2");       // tag2 == 35: a single tag
+  const std::string given = std::string(TAGS[ti]) + (tj < 35 ? std::string(",") + TAGS[tj] : std::string());
+  std::string canonTags = tj == 35 || tj == ti ? std::string(TAGS[ti]) : (ti < tj ? std::string(TAGS[ti]) + "," + TAGS[tj] : std::string(TAGS[tj]) + "," + TAGS[ti]);
+  const std::string refText = "@{X1|" + given + "}", canonical = "@{X1|" + canonTags + "}";
+  sym_assert(Morphology{given}.ToString() == canonTags, "morphology-tostring-names-the-same-tags");
+  const Reference parsed = Reference::Parse(refText);
+  sym_assert(parsed.IsValid() && parsed.IsEntity(), "tagged-reference-is-valid");
+  if (parsed.IsValid()) sym_assert(parsed.ToString() == canonical, "reference-tostring-is-the-canonical-spelling");
+  {
+    const std::string text = "see " + refText + " here";
+    RefsManager mgr(ctx);
+    const std::string resolved = mgr.Resolve(text);
+    sym_assert(mgr.OutputRefs(resolved) == "see " + canonical + " here", "outputrefs-restores-canonical-spelling");
+    ManagedText mt(text);
+    mt.TranslateRefs([](const std::string& e) -> std::optional<std::string> { if (e == "X1") return std::string("X7"); return std::nullopt; }, ctx);
+    sym_assert(mt.Raw() == "see @{X7|" + canonTags + "} here", "rename-keeps-the-form");
+  }
+  checkLaws("see " + refText + " here", ctx, true);
+  sym_reach("tags");
 #else
   static const char* const PIECE[] = {"", "a", "\xD0\x96 ", "@", "a@", "\xE2\x88\x85"};
   static const char* const REFS[] = {"@{X1|nomn}", "@{X2|sing,nomn}", "@{-1|x}", "@{1|y}", "@{X3|gent}", "@{X1}", "@{|nomn}", "@{X1|nomn|}", "@{2|}", ""};
